@@ -93,6 +93,20 @@ nni_verif_trace(
 	pthread_mutex_unlock(&verif_mtx);
 }
 
+static unsigned long verif_scans;
+
+unsigned long
+nni_verif_expire_scans(void)
+{
+	return (__atomic_load_n(&verif_scans, __ATOMIC_SEQ_CST));
+}
+
+void
+nni_verif_expire_scan_inc(void)
+{
+	(void) __atomic_add_fetch(&verif_scans, 1, __ATOMIC_SEQ_CST);
+}
+
 // Run a task that was taken by the gate: what a task queue thread does.
 void
 nni_verif_task_run(nni_task *task)
